@@ -5,13 +5,15 @@ export GOFLAGS=-mod=mod GOPROXY=off GOSUMDB=off GOTOOLCHAIN=local
 for d in "$@"; do
   d=$(cd "$d" && pwd); id=$(basename "$d")
   W=$(grep -oE '/tmp/seed[0-9]+/C[0-9]+' "$d/demo.sh" | head -1)
-  [ -z "$W" ] && { echo "$id: cannot find the worktree path in demo.sh"; continue; }
+  RUNCWD=""
+  # first-round seeds: demo.sh is written to be run from the root of a checkout
+  [ -z "$W" ] && { W=/tmp/seedconf/$id; RUNCWD=1; mkdir -p /tmp/seedconf; }
   [ -e "$W" ] && { echo "$id: $W exists, skipping"; continue; }
   git -C /repo worktree add -q --detach "$W" HEAD || continue
-  bash "$d/demo.sh" > /tmp/seedconfirm-$id.clean.log 2>&1; rc_clean=$?
+  if [ -n "$RUNCWD" ]; then ( cd "$W" && sh "$d/demo.sh" ) > /tmp/seedconfirm-$id.clean.log 2>&1; rc_clean=$?; else bash "$d/demo.sh" > /tmp/seedconfirm-$id.clean.log 2>&1; rc_clean=$?; fi
   ( cd "$W" && git apply "$d/patch.diff" ) || { echo "$id: patch does not apply"; git -C /repo worktree remove --force "$W"; continue; }
   ( cd "$W" && go build ./... ) > /tmp/seedconfirm-$id.build.log 2>&1; rc_build=$?
-  bash "$d/demo.sh" > /tmp/seedconfirm-$id.seed.log 2>&1; rc_seed=$?
+  if [ -n "$RUNCWD" ]; then ( cd "$W" && sh "$d/demo.sh" ) > /tmp/seedconfirm-$id.seed.log 2>&1; rc_seed=$?; else bash "$d/demo.sh" > /tmp/seedconfirm-$id.seed.log 2>&1; rc_seed=$?; fi
   git -C /repo worktree remove --force "$W"
   echo "seed=$id demo_without_patch_exit=$rc_clean build_with_patch_exit=$rc_build demo_with_patch_exit=$rc_seed confirmed=$([ $rc_clean -eq 0 ] && [ $rc_build -eq 0 ] && [ $rc_seed -ne 0 ] && echo yes || echo NO)" | tee "$d/confirm.txt"
   rm -f /tmp/seedconfirm-$id.*.log
